@@ -552,9 +552,9 @@ func genClassic(r *gen.Rand) ccase {
 		bs[i].c = bs[i].c * (1 - math.Ldexp(1, -33))
 		kind += "+small"
 	}
-	if r.Chance(1, 4) { // duplicate upper bound under another spelling
+	if r.Chance(1, 3) { // duplicate upper bound under another spelling
 		i := r.Intn(len(bs))
-		add(bs[i].ub, float64(r.Range(0, 5)), 1)
+		add(bs[i].ub, float64(r.Range(1, 5)), 1)
 		kind += "+dup"
 	}
 	if r.Chance(1, 10) {
@@ -588,6 +588,7 @@ func classicCorpus() []ccase {
 		mk("nonmono", 1, 6, 2, 4, 4, 9, inf, 8),
 		mk("neg-bound-first", -2, 3, 0, 4, 3, 9, inf, 9),
 		mk("only-inf", inf, 5),
+		mk("dup-bounds", 1, 2, 2, 5, 2, 3, inf, 10, inf, 2),
 		mk("all-zero", 1, 0, 2, 0, inf, 0),
 		mk("nan-middle", 1, 1, 2, math.NaN(), 3, 5, inf, 10),
 		mk("nan-last", 1, 1, 2, 3, inf, math.NaN()),
